@@ -3,6 +3,7 @@ package badger
 // C31 — a merge operator returns the fold of all added values (E-seq).
 
 import (
+	"bytes"
 	"fmt"
 	"strings"
 	"testing/synctest"
@@ -139,5 +140,50 @@ func init() {
 			return fmt.Sprintf("%s|adds%d|sib%v|later%v", k, 0, st.sibling, st.later)
 		},
 		describe: func(x *seqExec) string { return shapeString(x.db) },
+	})
+}
+
+// c31alias (E-enum): a merge function that returns one of its arguments as it is (a maximum), with
+// more un-merged versions than the iterator prefetches (100 by default): the fold must still be the
+// maximum over all added values, wherever the largest one sits.
+func init() {
+	registerEnum("c31alias", func(e *enumCtx) {
+		maxOf := func(existing, val []byte) []byte {
+			if bytes.Compare(existing, val) >= 0 {
+				return existing
+			}
+			return val
+		}
+		for _, n := range []int{2, 90, 101, 150} {
+			for _, pos := range []int{0, 1, n / 2, n - 2, n - 1} {
+				n, pos := n, pos
+				if pos < 0 || pos >= n {
+					continue
+				}
+				e.do(fmt.Sprintf("adds%d/max-at%d", n, pos), func() (string, string) {
+					o := smallOpts("")
+					o.InMemory, o.Dir, o.ValueDir = true, "", ""
+					o.MemTableSize = 1 << 20
+					db := mustOpen(o)
+					defer db.Close()
+					op := db.GetMergeOperator([]byte("m"), maxOf, time.Hour)
+					defer op.Stop()
+					for i := 0; i < n; i++ {
+						v := []byte("1-value-padding-0123456789")
+						if i == pos {
+							v = []byte("9-value-padding-0123456789")
+						}
+						if err := op.Add(v); err != nil {
+							return "merge-add", err.Error()
+						}
+					}
+					got, err := op.Get()
+					if err != nil || len(got) == 0 || got[0] != '9' {
+						return "merge-fold", fmt.Sprintf("%d Adds, the largest value added as number %d: Get = %q (err %v), want the value starting with 9 (the merge function returns one of its arguments)", n, pos+1, got, err)
+					}
+					return "", ""
+				})
+			}
+		}
 	})
 }
